@@ -318,7 +318,14 @@ func (sp *Specs) LoadSpecFile(path string, pkgPath string, external bool) error 
 			after := strings.TrimSpace(s[j+1:])
 			eq := strings.Index(after, "=")
 			if eq < 0 {
-				return fail(fmt.Errorf("spec func needs '= body'"))
+				// uninterpreted function
+				rt, err := ParseType(after)
+				if err != nil {
+					return fail(err)
+				}
+				sf.Result = rt
+				sp.SpecFuncs[sf.Name] = sf
+				continue
 			}
 			rt, err := ParseType(strings.TrimSpace(after[:eq]))
 			if err != nil {
